@@ -12,7 +12,9 @@ import (
 	"context"
 	"fmt"
 	"os"
+	"runtime"
 	"strings"
+	"sync/atomic"
 	"testing"
 	"time"
 
@@ -45,6 +47,57 @@ type ttlCase struct {
 	// looks like from the inside: the goroutine that reads the clock (the processing tick) runs on time, the
 	// runtime timers (the TTL watcher's) fire late, the later the longer they are
 	AheadMs int `json:"clock_gains_ms_per_s_on_timers,omitempty"`
+	// SlowStore: the store behind the quota answers slowly while the head of the queue runs out of time - the
+	// processing loop, which consults the quota for the head on every tick, is kept inside such a consultation
+	// (at a yield point of the shared state) from 300 ms before the head's expiry on, with a pause of 100 ms in
+	// every second (600-700 ms after the expiry instant, and every full second later), until the head has its
+	// verdict. The head's expiry falls into a consultation; its verdict is due when that consultation ends.
+	SlowStore bool `json:"quota_store_slow_around_the_heads_expiry,omitempty"`
+}
+
+// loopHold keeps the gateway's processing loop inside a state operation (see ttlCase.SlowStore).
+type loopHold struct {
+	w     *world
+	x     *rq
+	te    time.Time // expiry instant of the head
+	until time.Time
+	done  chan struct{}
+	holds atomic.Int64
+}
+
+var ttlHold atomic.Pointer[loopHold]
+
+func (h *loopHold) maybeHold() {
+	now := time.Now()
+	if now.Before(h.te.Add(-300*time.Millisecond)) || now.After(h.until) {
+		return
+	}
+	decided := false
+	h.w.locked(func() { decided = len(h.x.verdicts) > 0 })
+	if decided {
+		return
+	}
+	// the transactions' own goroutines are started by runTTL; every other goroutine that consults the quota's
+	// state is the gateway's (the queue's background loop)
+	buf := make([]byte, 32<<10)
+	if strings.Contains(string(buf[:runtime.Stack(buf, false)]), "c06.runTTL") {
+		return
+	}
+	phase := (now.Sub(h.te) + time.Second) % time.Second
+	var sleep time.Duration
+	switch {
+	case phase < 600*time.Millisecond:
+		sleep = 600*time.Millisecond - phase
+	case phase < 700*time.Millisecond:
+		return
+	default:
+		sleep = time.Second - phase + 600*time.Millisecond
+	}
+	h.holds.Add(1)
+	select {
+	case <-time.After(sleep):
+	case <-h.done:
+	}
 }
 
 // aheadClock is the real clock whose readings run ahead of its timers: by `by` per second since `since`.
@@ -146,6 +199,37 @@ func runTTL(tc ttlCase) (o ttlOutcome) {
 		}
 	}
 	lastArrival := time.Now()
+
+	if tc.SlowStore {
+		time.Sleep(300 * time.Millisecond) // the loop has passed twice: who was to be admitted is
+		var x *rq
+		w.locked(func() {
+			for _, r := range order {
+				if r.registered && len(r.verdicts) == 0 && (x == nil || r.P < x.P) {
+					x = r
+				}
+			}
+		})
+		if x != nil && time.Until(x.t0.Add(ttlSeconds*time.Second)) > 350*time.Millisecond {
+			te := x.t0.Add(ttlSeconds * time.Second)
+			h := &loopHold{w: w, x: x, te: te, until: te.Add(ttlGiveUp + time.Second), done: make(chan struct{})}
+			ttlHold.Store(h)
+			defer func() {
+				ttlHold.Store(nil)
+				close(h.done)
+				n := h.holds.Load()
+				tracef("the loop was kept inside a quota consultation %d times; head of the queue: %s", n, x.ID)
+			}()
+			defer func() {
+				if h.holds.Load() > 0 {
+					class("quota store slow while the head's time-to-live ran out")
+					o.NonTrivial = true
+				}
+			}()
+		} else {
+			class("slow store: no waiter to hold the loop on")
+		}
+	}
 
 	if tc.ShutdownMs > 0 {
 		time.Sleep(time.Duration(tc.ShutdownMs) * time.Millisecond)
@@ -285,6 +369,19 @@ func genTTL() *rapid.Generator[ttlCase] {
 	return rapid.Custom(func(t *rapid.T) ttlCase {
 		tc := ttlCase{Max: rapid.IntRange(1, 2).Draw(t, "max"), Size: rapid.IntRange(1, 4).Draw(t, "size"),
 			AheadMs: rapid.SampledFrom([]int{0, 0, 60, 150, 250}).Draw(t, "ahead")}
+		if rapid.IntRange(0, 3).Draw(t, "slow-store") == 0 {
+			// the quota's store is slow around the head's expiry: quota_max arrivals that are admitted, then 1-2
+			// that wait; all priorities distinct, so that the head of the queue is one request throughout
+			waiters := rapid.IntRange(1, 2).Draw(t, "waiters")
+			n := tc.Max + waiters
+			prios := rapid.Permutation([]string{"High", "mid", "low", ""}).Draw(t, "prios")[:n]
+			for i := 0; i < n; i++ {
+				tc.Arrivals = append(tc.Arrivals, ttlArr{Prio: prios[i], GapMs: rapid.SampledFrom([]int{0, 0, 20, 80}).Draw(t, "gap")})
+			}
+			tc.Size = rapid.IntRange(n, 4).Draw(t, "size-slow")
+			tc.AheadMs, tc.SlowStore = 0, true
+			return tc
+		}
 		mid := rapid.IntRange(0, 3).Draw(t, "midshutdown") == 0
 		n := rapid.IntRange(2, 5).Draw(t, "n")
 		for i := 0; i < n; i++ {
